@@ -306,9 +306,9 @@ impl FundedChannel {
              && final(self).context.pending_inbound_htlcs@ =~= v.update(k, InboundHTLCOutput { state: removed_state(err_contents), ..v[k] })
        &&& final(self).context.latest_monitor_update_id == old(self).context.latest_monitor_update_id && final(self).context.channel_state == old(self).context.channel_state }),
 //@mutant failure_queued_for_an_htlc_whose_claim_waits_in_the_holding_cell
-    &HTLCUpdateAwaitingACK::ClaimHTLC { htlc_id, .. } => { if htlc_id_arg == htlc_id { return Err(
+    return Err(ChannelError::Ignore(format!("HTLC {} was already claimed!", htlc_id)));
 //@with
-    &HTLCUpdateAwaitingACK::ClaimHTLC { htlc_id, .. } => { if htlc_id_arg == htlc_id + 1 { return Err(
+    
 //@mutant already_resolved_htlc_failed_again
     InboundHTLCState::LocalRemoved(_) => { return Err(
 //@with
